@@ -500,6 +500,11 @@ def verify_target(target, tier='quick', carve_names=None, cross_check=True):
 def replay_obligation(target, ob):
     """Replay the counter-model of a refuted `ensures` obligation on the REAL function.
     returns ('confirmed'|'contradicted'|'no-replay', detail dict)"""
+    if hasattr(target, 'custom_replay'):
+        try:
+            return target.custom_replay(ob)
+        except Exception as err:
+            return 'no-replay', {"reason": "custom replay failed: %s: %s" % (type(err).__name__, err)}
     if ob.model is None or ob.kind != 'ensures' or not target.native_replay:
         return 'no-replay', {"reason": "no usable model" if ob.model is None else
                              "obligation kind %s has no native replay" % ob.kind}
